@@ -188,6 +188,34 @@ let parse_op (toks : string list) : z op option = match toks with
   | "BI" :: items -> Some (OBatchInsert (List.map parse_kv items))
   | _ -> None
 
+(* ---------- heap edits (damage operators / helper misuse) ---------- *)
+let parse_target s =
+  if s = "NULL" then TNull
+  else if String.length s > 1 && s.[0] = 'p' then TPos (nat_of_int (ios (String.sub s 1 (String.length s - 1))))
+  else TRaw (n_of_int (ios s))
+let parse_edit (toks : string list) : z edit option = match toks with
+  | ["LK"; p; i; z] -> Some (ELeafKey (nat_of_int (ios p), nat_of_int (ios i), z_of_int (ios z)))
+  | ["BK"; p; i; z] -> Some (EBranchKey (nat_of_int (ios p), nat_of_int (ios i), z_of_int (ios z)))
+  | ["LKC"; p; i; j] -> Some (ELeafKeyCopy (nat_of_int (ios p), nat_of_int (ios i), nat_of_int (ios j)))
+  | ["BKC"; p; i; j] -> Some (EBranchKeyCopy (nat_of_int (ios p), nat_of_int (ios i), nat_of_int (ios j)))
+  | ["LLK"; p; z] -> Some (ELeafLastKey (nat_of_int (ios p), z_of_int (ios z)))
+  | ["LVPOP"; p] -> Some (ELeafPopVal (nat_of_int (ios p)))
+  | ["LKPOP"; p] -> Some (ELeafPopKey (nat_of_int (ios p)))
+  | ["LPUSH"; p; z; id; v] -> Some (ELeafPush (nat_of_int (ios p), key_of (ios z) (ios id), z_of_int (ios v)))
+  | ["LPUSHK"; p; z; id] -> Some (ELeafPushKey (nat_of_int (ios p), key_of (ios z) (ios id)))
+  | ["LTRUNC"; p; n] -> Some (ELeafTrunc (nat_of_int (ios p), nat_of_int (ios n)))
+  | ["BTRUNC"; p; n] -> Some (EBranchTrunc (nat_of_int (ios p), nat_of_int (ios n)))
+  | ["BCPOP"; p] -> Some (EBranchPopChild (nat_of_int (ios p)))
+  | ["BCDUP"; p] -> Some (EBranchDupChild (nat_of_int (ios p)))
+  | ["BREF"; p; i; id] -> Some (EBranchRef (nat_of_int (ios p), nat_of_int (ios i), n_of_int (ios id)))
+  | ["ROOT"; k; id] -> Some (ERoot ((k = "L"), n_of_int (ios id)))
+  | ["LNEXT"; p; t] -> Some (ELeafNext (nat_of_int (ios p), parse_target t))
+  | ["ORPHANL"] -> Some EOrphanLeaf
+  | ["ORPHANB"] -> Some EOrphanBranch
+  | ["FREEL"; p] -> Some (EFreeLeaf (nat_of_int (ios p)))
+  | ["FREEB"; p] -> Some (EFreeBranch (nat_of_int (ios p)))
+  | _ -> None
+
 (* ---------- arena histories ---------- *)
 let parse_aop (toks : string list) : z aop option = match toks with
   | ["alloc"; x] -> Some (AAlloc (z_of_int (ios x)))
@@ -219,7 +247,7 @@ let dump_arena (a : z arena) =
   pr "S3 mask=%s free=%s slots=%s\n" (s_mask a.mask) (s_free a.free) (s_list s_val a.store)
 
 (* ---------- main loop ---------- *)
-type st = Dead | Tree of z bstate | Arena of z arena
+type st = Dead | Tree of z bstate | Heap of z heap | Arena of z arena
 
 let () =
   let ic = if Array.length Sys.argv > 1 then open_in Sys.argv.(1) else stdin in
@@ -247,6 +275,32 @@ let () =
            incr step_no;
            (match !state with
             | Dead -> ()
+            | Tree b when (match toks with "DMG" :: _ -> true | _ -> false) ->
+                (match parse_edit (List.tl toks) with
+                 | None -> pr "O ?unparsed %s\n" line
+                 | Some e ->
+                     let h0 = flatten b in
+                     let h = apply_edit h0 e in
+                     pr "O edited\n"; dump_s3 h; dump_s2 h;
+                     (* an edit that changed nothing leaves the model in tree state *)
+                     if h = h0 then () else state := Heap h)
+            | Heap h when (match toks with "DMG" :: _ -> true | _ -> false) ->
+                (match parse_edit (List.tl toks) with
+                 | None -> pr "O ?unparsed %s\n" line
+                 | Some e ->
+                     let h = apply_edit h e in
+                     pr "O edited\n"; dump_s3 h; dump_s2 h; state := Heap h)
+            | Heap h ->
+                (match parse_op toks with
+                 | None -> pr "O ?unparsed %s\n" line
+                 | Some o ->
+                     (match hstep h o with
+                      | None -> pr "O UNSUPPORTED\n"; state := Dead
+                      | Some out ->
+                          pr "O %s\n" (s_out out);
+                          (match out with
+                           | UPanic | UFuel | UUB -> state := Dead
+                           | _ -> dump_s3 h; dump_s2 h)))
             | Tree b ->
                 (match parse_op toks with
                  | None -> pr "O ?unparsed %s\n" line
